@@ -473,3 +473,36 @@ Fixpoint seq_all (cidx0 : bool) (fuel : nat) (s : state) : state :=
   | O => s
   | S f => if enabled s LSeqTake then seq_all cidx0 f (kstep cidx0 s LSeqTake) else s
   end.
+
+(* ---------- point and range reads (range.go:34-74, :124-174; scanner.go:416-507 on the records of
+   the keys of a case): only what the header/revision relation of C02 needs ---------- *)
+
+Definition vers_upto (r : N) (l : list (N * bytes)) : list (N * bytes) := filter (fun p => fst p <=? r) l.
+
+(* backend.get(key, revision): newest version not above revision (0 = latest) *)
+Definition get_at (ks : kstate) (rev : N) : gres :=
+  match newest (if rev =? 0 then k_vers ks else vers_upto rev (k_vers ks)) with
+  | None => GNotFound
+  | Some (r, v) => if beqb v tombstone then GNotFound else GOk v r
+  end.
+
+Inductive rdreq := RdGet (k : key) (rev : N) | RdList (rev : N).
+Inductive rdresp := RdErr | RdOk (hdr : N) (kvs : list (key * bytes * N)).
+
+(* Backend.Get *)
+Definition read_get (s : state) (k : key) (rev : N) : rdresp :=
+  let cur_ := committed (rs s) in
+  match get_at (kv s k) rev with
+  | GOk v mr => RdOk (N.max cur_ mr) [(k, v, mr)]
+  | _ => RdOk cur_ []
+  end.
+
+(* Backend.List over the keys of the case (given in key order), no limit *)
+Definition read_list (s : state) (keys : list key) (rev : N) : rdresp :=
+  let cur_ := committed (rs s) in
+  let req := if rev =? 0 then cur_ else rev in
+  RdOk cur_
+    (flat_map (fun k => match newest (vers_upto req (k_vers (kv s k))) with
+                        | Some (r, v) => if beqb v tombstone then [] else [(k, v, r)]
+                        | None => []
+                        end) keys).
